@@ -7,6 +7,7 @@ evaluate like the original at random integer valuations under hash-based
 uninterpreted function tables."""
 import itertools
 import random
+from fractions import Fraction
 
 from vf.runner import CaseTimeout, case_alarm
 from vf.sexpr import Env, UFuncs, Undefined, ev, from_pym, has, size, to_pym, variables
@@ -71,6 +72,13 @@ def gen(rng, depth, pool, nd=False):
     if size(e) < 12:
         pool.append(e)
     return e
+
+
+def close(want, got):
+    from vf.sexpr import values_equal
+    if isinstance(want, (int, Fraction)) and isinstance(got, (int, Fraction)):
+        return abs(want - got) <= abs(want) * Fraction(1, 10 ** 30)
+    return values_equal(want, got, rtol=1e-9)
 
 
 def check(expr, free, rec, deciding=True):
@@ -153,7 +161,10 @@ def check(expr, free, rec, deciding=True):
         # (negative values too: (y**2)**0.5 is |y|, not y)
         store = {n: prng.randint(0, 5) if pt % 2 == 0 else prng.randint(-4, 4) for n in allv}
         for salt in (5, 17):
-            env = Env(dict(store), UFuncs(salt))
+            # exact rational arithmetic (fractional powers: rationals good to 60 digits): re-association of a sum
+            # with heavy cancellation ((b + a + c) + tiny + x*c at b + a + c = -x*c) moves a float result by 1e-8
+            env = Env({n: Fraction(v) for n, v in store.items()}, UFuncs(salt), numconv=Fraction)
+            env.decimal_powers = True
             try:
                 want = ev(expr, env)
                 pending = list(sas)
@@ -176,8 +187,7 @@ def check(expr, free, rec, deciding=True):
                 rec.count("points_without_defined_value")
                 continue
             rec.count("points_evaluated")
-            from vf.sexpr import values_equal
-            if not values_equal(want, got, rtol=1e-9):
+            if not close(want, got):
                 return bad("value-changed",
                            f"original = {want}, rewritten = {got} at {store} (salt {salt}); "
                            f"result={so}, assignments={sas}")
